@@ -94,6 +94,19 @@ pub fn iter_all<I: Iterator, F: FnMut(I::Item) -> bool>(it: I, f: F) -> (r: bool
             && (r ==> vals.len() == it.remaining().len() && forall|k: int| 0 <= k < vals.len() ==> #[trigger] vals[k]),
 { let mut it = it; it.all(f) }
 
+// `RECV.map(CLOSURE).collect()` into a BTreeMap: later pairs with an equal key win (FromIterator for BTreeMap)
+#[verifier::external_body]
+pub fn map_collect_btreemap<I: Iterator, K: Ord, V, F: FnMut(I::Item) -> (K, V)>(it: I, f: F) -> (r: BTreeMap<K, V>)
+    requires
+        it.obeys_prophetic_iter_laws(),
+        forall|k: int| 0 <= k < it.remaining().len() ==> call_requires(f, (#[trigger] it.remaining()[k],)),
+    ensures
+        exists|vals: Seq<(K, V)>| #![auto] vals.len() == it.remaining().len()
+            && (forall|k: int| 0 <= k < vals.len() ==> call_ensures(f, (it.remaining()[k],), #[trigger] vals[k]))
+            && r@.dom() == vals.map_values(|p: (K, V)| p.0).to_set()
+            && (forall|k: int| 0 <= k < vals.len() && (forall|j: int| k < j < vals.len() ==> vals[j].0 != vals[k].0) ==> r@[#[trigger] vals[k].0] == vals[k].1),
+{ it.map(f).collect() }
+
 // ---- std items without a vstd specification ------------------------------------------------------
 pub assume_specification<T: PartialEq>[ <[T]>::contains ](s: &[T], x: &T) -> (r: bool)
     ensures <T as PartialEqSpec>::obeys_eq_spec() ==> r == (exists|i: int| 0 <= i < s@.len() && PartialEqSpec::eq_spec(&#[trigger] s@[i], x));
